@@ -15,7 +15,7 @@ RULE = (
     "user callbacks are real user-level objects - a lazily evaluated Hamiltonian BlockSeries, a two-argument solve_sylvester "
     "wrapping the library's diagonal solver, and a user matrix class whose __matmul__ is the multiplication callback - all ticking "
     "one invocation counter. For a request target EVERY invocation index of the undisturbed run is used once as injection point, for "
-    "each of Exception-subclass / RuntimeError / KeyboardInterrupt (exhaustive per (problem, target, type)); sampled double faults "
+    "each of Exception-subclass / RuntimeError / KeyboardInterrupt / RecursionError (a RuntimeError subclass; one type per case, exhaustive over injection points); sampled double faults "
     "(second fault during recovery). Oracle: the exception reaches the caller (same object, or in the __cause__ chain of the "
     "RuntimeError wrapper), no PENDING marker in any series of the computation (state walk + in-situ quiescence monitor), and every "
     "element of all three outputs re-requested in random order is bitwise equal to the undisturbed computation. A second family "
